@@ -44,7 +44,7 @@ chk("C13", "fault_enumeration",
     "For two small inputs (thorough: plus two medium ones) x 19 tool scenarios (gensquashfs pack-file/pack-dir/xattr-file and a pack-dir run with a weakened block checksum so that colliding fragments are compared through read-back, tar2sqfs plain and gzip stdin, sqfs2tar plain/gzip/zstd/xz, rdsquashfs cat/stat/list/xattr/describe/unpack) "
     "a counting run records the number of calls per class; then one ASan run per (class, k, kind): k-th read/write/pread/pwrite/ftruncate/open/fsync/readdir failing with EIO/ENOSPC/EACCES "
     "(also EINTR-then-error and persistent errors) and the k-th allocation by project code returning NULL. Oracle: no sanitizer report or signal; exit != 0 implies a diagnostic and (packers) no output file; "
-    "exit 0 implies output identical to the fault-free run. Plus truncated tar streams (cut inside a member) and truncated images.",
+    "exit 0 implies output identical to the fault-free run. Plus truncated tar streams (cut inside a member, and at every 512 byte boundary between the GNU L/K and PAX x records of one member) and truncated images.",
     "Single fault per run, -j 1; allocation faults only for allocations made by project code (link-time wrap), not inside libc/zlib/xz/zstd.",
     "exhaustive single-fault injection via link-time wrappers under ASan", "3/C13")
 chk("C14", "fault_enumeration",
@@ -87,7 +87,7 @@ chk("C04", "exploration",
     "An independent tar writer (vp/tarmodel.py) serialises generated trees in every supported dialect (v7, ustar with prefix, pre-POSIX, GNU long name/link, PAX path/linkpath/size/uid/gid/mtime, "
     "base-256 and negative/large numbers, old GNU/0.0/0.1/1.0 sparse maps with random hole layouts, SCHILY and LIBARCHIVE xattrs, hard links before/after their targets, implicit parents, './', '' and '/' prefixes). "
     "tar2sqfs (ASan) output is decoded by the independent parser and compared with the intended tree; sqfs2tar output is read by Python tarfile (binary-safe pax scan for xattrs) and must be accepted by GNU tar; "
-    "image -> tar -> image must preserve the tree and hard-link groups and the second round trip must be byte identical (images and archives); sqfs2tar -r/-X/-L/-d variants and tar2sqfs --root-becomes (with and without -S: link retargeting, hard link groups, root attributes) are checked against "
+    "image -> tar -> image must preserve the tree and hard-link groups and the second round trip must be byte identical (images and archives); sqfs2tar -r/-X/-L/-d variants and tar2sqfs --root-becomes (with and without -S: link retargeting incl. targets that only share a string prefix with the root name, hard link groups, root attributes) are checked against "
     "exact expectations; images with socket inodes from the independent writer must lose exactly the sockets.",
     "Trusted: vp/tarmodel.py, Python tarfile, GNU tar, vp/sqfsimg.py. One open finding is matched by key (xattr order flips on each round trip).",
     "differential conversion against independent tar and SquashFS models", "3/C04")
@@ -110,7 +110,7 @@ chk("C05", "exploration",
     "Quick samples one instance per field kind (off-by-one values always kept); thorough mutates every field. Compressed metadata is reached by byte and stream-header mutation only. ASan red zones miss far out-of-bounds accesses.",
     "structure-aware field mutation + ASan/UBSan walk harness and CLI replay", "3/C05")
 chk("C10", "exploration",
-    "For tool-written images in every compressor and for field-mutated writer images (including two inodes that share a data location with different size words) a catalogue of self-contained reader queries "
+    "For tool-written images in every compressor and for field-mutated writer images (including two block-carrying files that share a data location with their own, equal, bit-flipped and off-by-one size words) a catalogue of self-contained reader queries "
     "(inode by reference incl. references into the middle of records / beyond the block, directory listing, path resolution, positional read, block, fragment, stream, xattr set, id lookup, raw metadata "
     "seek+read; valid and invalid arguments) is answered once by freshly created readers per query. Histories of queries (random, failing queries in between, repeats, same/neighbouring metadata blocks) then run "
     "on one long-lived set of reader objects in an ASan harness; every (status, payload hash) must equal the fresh answer. A mismatch is minimised to the shortest failing history. The hook log counts cache "
@@ -129,7 +129,7 @@ chk("C06", "exploration",
     "before/after jail snapshot + strace path audit around the real unpacker on hostile images", "3/C06")
 chk("C19", "exploration",
     "For each of the copyable kinds (gzip/xz/lzma/lz4/zstd compressors in both directions, fragment table, id table, metadata, directory, data and xattr readers, read-only file, xattr writer) an ASan+LSan "
-    "harness builds three identically constructed objects (compressors with seeded non-default options) with the same seeded pre-history; in a third of the histories every allocation inside sqfs_copy(O1) is first made to fail once "
+    "harness builds three identically constructed objects (compressors with seeded non-default options; half of their histories contain read_options() of in-range, out-of-range and malformed option blocks and write_options()) with the same seeded pre-history; in a third of the histories every allocation inside sqfs_copy(O1) is first made to fail once "
     "and O1 must keep answering like its twin; then C = sqfs_copy(O1) (every third history also a copy of the copy), and C and O1 are driven with different interleaved "
     "seeded operation sequences: C must answer every operation like the untouched twin O2 and O1 like the twin O3 (answers compared as hashes of status and payload; the xattr writer additionally by the bytes it "
     "flushes). Then O1 or C is released first (one process per order so a crash is attributable), the survivor is used again, and LeakSanitizer must be clean.",
